@@ -40,6 +40,11 @@ def main(tier, seed):
             if r < 0.45:
                 p = rand_prog(rng, grammar=True)
                 if rng.random() < 0.12: p = idiom_bigfrac(rng) + p[:3]
+                if rng.random() < 0.1:
+                    # a value of ten or more digits written to an output stack: 2^32 .. 10^10 and beyond (must be diagnosed or
+                    # written, never a panic: seeded change C13-ten-digit-value-parsed-as-u32)
+                    fs = rng.choice([[10] * 9 + [5], [16] * 8, [16] * 8 + [1, 1], [10] * 10, [10] * 9 + [9], [64] * 7, [10] * 9 + [4]])
+                    p = [push(f) for f in fs] + [(2, len(fs), rng.choice([1, 2]), None)] + p[:3]
                 content = render_prog(p, rng.choice([" ", "\n"])).encode("utf-8")
             elif r < 0.65:
                 # near-syntax texts: short strings over one representative of every character class (orphan start
@@ -76,11 +81,20 @@ def main(tier, seed):
             lvl = rng.choice([0, 1, 2])
             argv = ["check", path] if mode == "check" else ["run", "-O%d" % lvl, path]
             jobs.append((argv, stdin)); meta.append((mode, lvl, path, name, content, stdin))
+        # areas nested deeper than the native stack carries (known finding KF-C13-1: recursion over the area tree in Drop/Display/Clone/calc);
+        # these files are not given to the model driver (its own recursion is as deep)
+        deep = set()
+        for nm, ch, mode, lvl in (("deepq.hyeong", "?", "check", 0), ("deepq.hyeong", "?", "run", 0), ("deepb.hyeong", "!", "run", 2)):
+            path = os.path.join(tmp, nm); content = ("\ud615" + ch * 1000000 + "\n").encode("utf-8")
+            open(path, "wb").write(content)
+            deep.add(len(jobs))
+            jobs.append((["check", path] if mode == "check" else ["run", "-O%d" % lvl, path], b"")); meta.append((mode, lvl, path, nm, content, b""))
         with ThreadPoolExecutor(max_workers=NCPU) as ex:
             res = list(ex.map(run_cli, jobs))
         # model predictions where std's verdicts are known
         ops = []; idx = []; bad_stdin = set()
         for i, (mode, lvl, path, name, content, stdin) in enumerate(meta):
+            if i in deep: continue
             ext_ok = ext_is_hyeong(name)
             readable = ext_ok and name != "dir.hyeong" and not name.startswith("missing")
             try: src = content.decode("utf-8") if readable else None
@@ -106,6 +120,10 @@ def main(tier, seed):
                 stats["timeouts"] += 1; continue
             key = "cli %s O%d %s %s %s" % (mode, lvl, name.split(".")[-1], content.hex()[:200], stdin.hex()[:100])
             if rc not in (0, 1):
+                import re as _re
+                if b"stack overflow" in se and _re.search(rb"[?!]{100000,}", content):
+                    # the one shape the known finding covers: native stack exhausted by an area nested >= 100 000 operators deep
+                    key = "cli native-stack-overflow area-nesting>=100000"
                 rep.violation("impl-vs-spec", {"what": "the tool ended abnormally (status %s)" % rc, "argv": jobs[i][0], "file_bytes_hex": content.hex()[:400], "stdin_hex": stdin.hex()[:200],
                                                "stderr": se.decode("utf-8", "replace")[-300:], "match_key": key})
                 continue
